@@ -97,6 +97,41 @@ def scalar_of(x):
     return m
 
 
+class Dep:
+    """Payload element standing for a sample that may be missing (NaN / masked cell).
+
+    Arithmetic propagates the set of publications a result was computed from -- also through a
+    zero weight, exactly like ``0 * nan`` and ``0 * numpy.ma.masked`` do.  A delivered value whose
+    set contains a publication that the exact result does not depend on would be NaN / masked
+    whenever that publication is."""
+
+    __slots__ = ("deps",)
+
+    def __init__(self, deps):
+        self.deps = frozenset(deps)
+
+    def _u(self, other):
+        if isinstance(other, Dep):
+            return Dep(self.deps | other.deps)
+        return Dep(self.deps)
+
+    __add__ = __radd__ = __sub__ = __rsub__ = __mul__ = __rmul__ = __truediv__ = _u
+
+    def __rtruediv__(self, other):
+        return Dep(self.deps)
+
+    def __neg__(self):
+        return self
+
+    __pos__ = __neg__
+
+    def __float__(self):
+        raise symx.SymbolicLeak("float() of a Dep payload")
+
+    def __repr__(self):
+        return "Dep(" + ",".join(str(d) for d in sorted(self.deps)) + ")"
+
+
 class HComp(fm.TimeComponent):
     """Harness time component: symbolic start, list of (cycled) symbolic steps.
 
